@@ -277,12 +277,18 @@ def qc_path(prog: Program) -> RuleResult:
     for hname, (_, _, _, hf, hc) in helpers.items():
         paths = explore(prog, hf, [Sym("self"), Sym("result_count"), Sym("done")], self_type=None)
         atoms = {a for val, _, _ in paths for a in val}
+        target = src(hc.func.value)
+
+        def is_set(val):
+            # the constraint is there: its truth test holds / it is not None
+            return all((v if a[0] == "truth" else (not v)) for a, v in val.items())
+
         called_when_set = all(
             any(app.fn.endswith(".assert_satisfaction") for app in calls)
             for val, out, calls in paths
-            if all(v for a, v in val.items() if a[0] == "truth")
+            if is_set(val)
         )
-        only_constraint_guard = all(a[0] == "truth" and a[1] == src(hc.func.value) for a in atoms)
+        only_constraint_guard = all((a[0] == "truth" and a[1] == target) or (a[0] == "is" and set(a[1:]) == {"None", target}) for a in atoms)
         r.check(
             called_when_set and only_constraint_guard,
             f"ResultQuantifier.{hname}#guard",
@@ -489,6 +495,13 @@ def qc_errors(prog: Program) -> RuleResult:
     return r
 
 
+def _opt_truth(prog):
+    # the quantifier asks `if self._quantification_constraint_:` before enforcing: a constraint object must not be falsy
+    from .opttruth import opt_truth
+
+    return opt_truth(prog, ["result_quantification_constraint.ResultQuantificationConstraint"], 1)
+
+
 def run(prog: Program, tier: str) -> List[RuleResult]:
     # thorough: every cell is witnessed by all integer models up to 8 instead of 4 (same cells: the ordering domain is finite)
-    return [qc_table(prog, 9 if tier == "thorough" else 4), qc_ctor(prog), qc_path(prog), qc_map(prog), qc_errors(prog)]
+    return [qc_table(prog, 9 if tier == "thorough" else 4), qc_ctor(prog), qc_path(prog), qc_map(prog), qc_errors(prog), _opt_truth(prog)]
